@@ -73,6 +73,20 @@ type Item struct {
 	Known     []string // names of known-finding predicates to assume away
 	WitnessN  int      // sample every n-th completed path as a witness (0 = none)
 	MaxSteps  int64
+	Start     *StartPrefix // nil: explore from the root; else: only the subtree below this prefix
+}
+
+// StartPrefix is an opaque decision prefix handed from one worker to another
+// (work stealing). Any worker can run any prefix because paths are explored
+// by re-execution.
+type StartPrefix struct {
+	p []pfx
+}
+
+// Sharing lets a running worker give pending subtrees away when others idle.
+type Sharing struct {
+	Idle   func() bool
+	Donate func(items []Item)
 }
 
 type ItemResult struct {
@@ -143,7 +157,7 @@ func (w *Worker) init() (err error) {
 	return nil
 }
 
-func (w *Worker) Run(item Item) (res ItemResult) {
+func (w *Worker) Run(item Item, sh *Sharing) (res ItemResult) {
 	in := w.in
 	start := time.Now()
 	res.Item = item
@@ -197,6 +211,12 @@ func (w *Worker) Run(item Item) (res ItemResult) {
 			}
 		}()
 		vt := fn.Signature.Params().At(0).Type().(*types.Pointer).Elem()
+		in.sharing = sh
+		in.curItem = item
+		in.startPrefix = nil
+		if item.Start != nil {
+			in.startPrefix = item.Start.p
+		}
 		in.Explore(func() {
 			in.mapNondet = false
 			in.exitExpected = false
